@@ -181,6 +181,15 @@ Proof.
   rewrite andb_false_r. reflexivity.
 Qed.
 
+(** ... and explicit validation does promote it, paused or not, as long as it is not failed *)
+Theorem validated_promotes : forall ann oc a u now,
+  canary_valid ann (r_name u) = true -> canary_failed_rs (r_status u) = false ->
+  fst (select_current ann oc (Some a) u now) = u.
+Proof.
+  intros ann oc a u now Hv Hf. unfold select_current. destruct oc as [c|]; [|reflexivity].
+  destruct (canary_ended (Some c) u now) as [ended rq]. rewrite Hv, Hf. reflexivity.
+Qed.
+
 Theorem state_string_no_canary : forall ann,
   non_canary_state ann =
   if a3_true (an_frozen ann) then ST_FROZEN else if a3_true (an_rolling_paused ann) then ST_RU_PAUSED else ST_RUNNING.
